@@ -57,7 +57,7 @@ func runP2(c *p2Case, r *core.Rec, cl p2Clauses) *p2Run {
 	}
 	fs := s.FS0.Clone()
 	for _, d := range c.Dmg {
-		scen.ApplyData(fs, s.Paths, s.RecFiles, s.Cfg.Slice, r.Seed, d)
+		s.ApplyDmg(fs, d, r.Seed)
 	}
 	for i, e := range c.Extra {
 		fs.Put(e, scen.Garbage(r.Seed, 400+i, 9))
